@@ -644,6 +644,17 @@ def special_tests(job):
             expect(snapshot() == s0, "diffs", args="generator resumed %d times" % (i + 1), prec_before=s0, prec_after=snapshot())
         g.close()
         restore(s0)
+    # generator resumed after the CONSUMER changed the precision: its segments restore a stale absolute precision
+    mp.prec = 53
+    g = mp.diffs(mp.sin, mp.mpf(1))
+    for i in range(4):
+        next(g)
+    mp.prec = 100
+    s1 = snapshot()
+    next(g)
+    expect(snapshot() == s1, "diffs", args="generator resumed after the consumer changed mp.prec", prec_before=s1, prec_after=snapshot())
+    g.close()
+    mp.prec = 53
     # default() and clone()
     mp.prec = 101
     c = mp.clone()
